@@ -156,6 +156,8 @@ def main(tier):
                     what = f"{label}: torch._int_mm with in_features=1 and a transposed weight returns garbage (off by {st['at_diff']:.4g})"
                 ck.violation(what, {"case": cfg, "observed": st, "bound": bound})
 
+        if r.get("reused_input_ok") is False and not (c["op"] == "linear" and dtype == "bfloat16" and c.get("act") == "float" and c.get("wq") == "qint8" and K % 4 == 0 and K % 16 != 0):
+            ck.violation("F.linear fed the same activation object again after an in-place update returns something else than for a fresh tensor holding the same values", {"case": cfg})
         if r.get("result_stable") is False:
             if c["op"] == "linear" and dtype == "bfloat16" and c.get("act") == "float" and c.get("wq") == "qint8" and K % 4 == 0 and K % 16 != 0:
                 # F14: the int8-pack kernel reads past unaligned rows; when it does not crash its result is garbage that changes from call to call
